@@ -29,6 +29,10 @@ def handle (args : List String) : Option String :=
   | ["ustr", src] => do
     let s ← hexDecode src
     pure (hexEncode (unescape s))
+  | ["chain", src] => do
+    -- transform.Chain(jid.Escape, jid.Unescape) on the whole input
+    let s ← hexDecode src
+    pure (hexEncode (unescape (escape s)))
   | _ => none
 
 end XmppModel.Driver.C16
